@@ -517,11 +517,9 @@ func ruleArgsConsumed(c *Ctx, r *Report) {
 			// the two facts may hold alternatively (len == 0 || text): cut-set check
 			reach := reachableAvoiding(term, ret.Block(), func(from *ssa.BasicBlock, i int, cond ssa.Value) bool {
 				// cut the edges on which "arguments are left and not in text mode" is refuted
-				if bo, ok := cond.(*ssa.BinOp); ok {
-					if _, isLen := lenOfField(bo.X, "Parser", "args"); isLen {
-						if k, ok := constInt(bo.Y); ok && k == 0 {
-							return (bo.Op == token.EQL && i == 0) || (bo.Op == token.NEQ && i == 1)
-						}
+				if x, op, k, ok := cmpConst(cond); ok {
+					if _, isLen := lenOfField(x, "Parser", "args"); isLen && k == 0 {
+						return (op == token.EQL && i == 0) || (op == token.NEQ && i == 1)
 					}
 				}
 				if ld, ok := cond.(*ssa.UnOp); ok && ld.Op == token.MUL {
@@ -1604,15 +1602,13 @@ func ruleAnswerKept(c *Ctx, r *Report) {
 				}
 				// a value known non-nil is not the zero value of a closed channel either
 				for f := range c.factsAt(in.Block()) {
-					if bo, ok := f.cond.(*ssa.BinOp); ok && (bo.Op == token.NEQ) == f.pol && (bo.Op == token.NEQ || bo.Op == token.EQL) {
-						if k, ok := bo.Y.(*ssa.Const); ok && k.IsNil() {
-							for _, l := range c.originSet(bo.X) {
-								if ex, ok := l.(*ssa.Extract); ok {
-									l = ex.Tuple
-								}
-								if l == ssa.Value(u) {
-									okFact = true
-								}
+					if x, op, ok := nilCmp(f.cond); ok && (op == token.NEQ) == f.pol {
+						for _, l := range c.originSet(x) {
+							if ex, ok := l.(*ssa.Extract); ok {
+								l = ex.Tuple
+							}
+							if l == ssa.Value(u) {
+								okFact = true
 							}
 						}
 					}
@@ -1627,5 +1623,77 @@ func ruleAnswerKept(c *Ctx, r *Report) {
 	}
 	if n == 0 {
 		r.undecided(rule, "anchor:Solutions.env", "-", desc, "no store to Solutions.env found in the root package")
+	}
+}
+
+// ---------------------------------------------------------------------------
+// C15: R-STRING-SOURCES — added after seed C15e.  "Scan stores exactly the value of the answer or returns an
+// error."  A Scan helper that selects its source terms through a Go *interface* (convertAssignString takes
+// every fmt.Stringer) accepts whatever term type happens to implement it: the day Float or Integer gets a
+// String method (an extract-method refactoring of the writer), X = 1.5 and X = '1.5' store the same string and
+// nothing says so.  For every assertion of a term to a non-Prolog interface in the conversion helpers of the
+// root package the set of concrete Term types that satisfy it - computed from the type-checked program - is
+// the set confirmed by reading: the text-like terms.  (engine.Term and engine.Compound are the Prolog notions
+// themselves and are not restricted.)
+var stringSourcesAllowed = map[string]bool{
+	"engine.Atom":     true, // an atom is its name
+	"engine.charList": true, // the list of characters of a text
+	"engine.codeList": true, // the list of codes of a text
+	// the key type of the procedure table: a Compound for the writer's sake, never bound to a variable - every
+	// place that raises or unifies a predicate indicator uses its Term() (confirmed by reading and by probing
+	// current_predicate/1, existence and permission errors)
+	"engine.procedureIndicator": true,
+}
+
+func ruleStringSources(c *Ctx, r *Report) {
+	const rule = "R-STRING-SOURCES"
+	desc := "a Scan helper that accepts terms through a Go interface accepts text-like terms only"
+	scan := c.rootMethod("Solutions", "Scan")
+	if scan == nil {
+		r.undecided(rule, "anchor:Solutions.Scan", "-", "locate Solutions.Scan", "not found")
+		return
+	}
+	termT := c.engType("Term")
+	impls := c.termImplementers()
+	n := 0
+	for _, fn := range c.LibFuncs() {
+		if funcPkg(fn) != c.Root || fn.Parent() != nil || !(fn == scan || c.staticallyReaches(scan, fn)) {
+			continue
+		}
+		seen := map[string]bool{}
+		eachInstr(fn, func(in ssa.Instruction) {
+			ta, ok := in.(*ssa.TypeAssert)
+			if !ok || termT == nil || !types.Identical(ta.X.Type(), termT) {
+				return
+			}
+			it, ok := ta.AssertedType.Underlying().(*types.Interface)
+			if !ok || isEngNamed(ta.AssertedType, "Term") || isEngNamed(ta.AssertedType, "Compound") {
+				return
+			}
+			key := fmt.Sprintf("%s/assert(%s)", fname(fn), types.TypeString(ta.AssertedType, func(p *types.Package) string { return p.Name() }))
+			if seen[key] {
+				return
+			}
+			seen[key] = true
+			n++
+			var got, extra []string
+			for _, t := range impls {
+				if types.Implements(t, it) {
+					name := types.TypeString(t, func(p *types.Package) string { return p.Name() })
+					got = append(got, name)
+					if !stringSourcesAllowed[strings.TrimPrefix(name, "*")] {
+						extra = append(extra, name)
+					}
+				}
+			}
+			if len(extra) == 0 {
+				r.ok(rule, key, c.at(in), desc, fmt.Sprintf("the term types that satisfy it: %v", got), true)
+			} else {
+				r.bad(rule, key, c.at(in), desc, fmt.Sprintf("%v satisfy the interface too: their text is stored into a string destination as if it were an atom (X = 1.5 and X = '1.5' become indistinguishable) instead of a conversion error", extra))
+			}
+		})
+	}
+	if n == 0 {
+		r.info(rule, "scan/interface-assertions", "-", desc, "no Scan helper selects terms through a Go interface")
 	}
 }
